@@ -70,6 +70,7 @@ def extractor_kinds(ctx, kit):
                 if want is not None:
                     ok = arg == want
                     ctx.ob("SIB.extract.projection", n, f"keys_in_tasks: {kind} -> descends into {want}", ok, "" if ok else f"descends into `{arg}`: keys nested in a {kind} are not reported as dependencies (cull drops them, the converter still evaluates them)")
+    ctx._extractor_kinds = dict(ext)
     ctx.count("extractor_kinds", len(ext))
     ctx.floor("extractor_kinds", 4, "container kinds keys_in_tasks descends into")
     # membership test for leaves
@@ -77,6 +78,27 @@ def extractor_kinds(ctx, kit):
     ok = bool(leaf) and has_fact(inline_facts(kit, leaf[0][0]), "w in keys", True) is not None
     ctx.ob("SIB.extract.leaf", kit, "a leaf is a dependency iff it is in keys", ok)
     return ext
+
+
+def converter_only_kinds(ctx, model):
+    """Container kinds the converter evaluates elementwise but the legacy extractor (and therefore
+    legacy cull/fuse, which multiprocessing.get applies before conversion) does not look into."""
+    ts = model.module(TS)
+    conv = ts.func("convert_legacy_task")
+    ext = getattr(ctx, "_extractor_kinds", {})
+    for n in conv.body:
+        if isinstance(n, ast.If) and "isinstance(task," in unparse(n.test) and "list" in unparse(n.test):
+            m = Pat("isinstance(task, M_t)").match(n.test)
+            kinds = [unparse(e) for e in m["M_t"].elts] if m and isinstance(m["M_t"], ast.Tuple) else []
+            for k in kinds:
+                ok = k in ext or (k == "tuple" and False)
+                ctx.ob(
+                    "SIB.convert-extract",
+                    n,
+                    f"converter evaluates `{k}` elementwise; extractor descends into `{k}`",
+                    ok,
+                    "" if ok else f"keys nested in a plain {k} are evaluated by the converter (sync/threaded) but invisible to keys_in_tasks/subs: multiprocessing.get, which culls and fuses the legacy graph first, returns them unevaluated",
+                )
 
 
 def check(ctx):
@@ -136,6 +158,7 @@ def check(ctx):
             ctx.ob("SIB.extract-convert", conv, f"{kind}: passed through unchanged", ok, nontrivial=False)
         else:
             ctx.ob("SIB.extract-convert", kit, f"extractor kind `{kind}`", None, "unknown container kind in keys_in_tasks")
+    converter_only_kinds(ctx, model)
     # task construction
     mk = [c for c in calls(task_if, "Task", nested=False)]
     ok = len(mk) == 1 and Pat("Task(key, func, *new_args)").match(mk[0]) is not None
